@@ -412,6 +412,46 @@ FTSENT *__wrap_fts64_read(FTS *f) {
 }
 int __wrap_fts64_close(FTS *f) { return fts_close(f); }
 
+/* ---------- calls the model does not have: logged, and crash / fault points like the others ---------- */
+int __wrap_rename(const char *a, const char *b) {
+  GATE_FAIL("rename", -1);
+  logf_(" %s %s", canon(a), canon(b));
+  return done_i(rename(a, b));
+}
+int __wrap_renameat(int fa, const char *a, int fb, const char *b) {
+  GATE_FAIL("renameat", -1);
+  logf_(" %s %s", a, b);
+  return done_i(renameat(fa, a, fb, b));
+}
+int __wrap_fsync(int fd) {
+  GATE_FAIL("fsync", -1);
+  return done_i(fsync(fd));
+}
+int __wrap_fdatasync(int fd) {
+  GATE_FAIL("fdatasync", -1);
+  return done_i(fdatasync(fd));
+}
+int __wrap_truncate64(const char *p, off_t n) {
+  GATE_FAIL("truncate", -1);
+  logf_(" %s %ld", canon(p), (long)n);
+  return done_i(truncate(p, n));
+}
+int __wrap_fchmod(int fd, mode_t m) {
+  GATE_FAIL("fchmod", -1);
+  logf_(" %o", m);
+  return done_i(fchmod(fd, m));
+}
+int __wrap_chmod(const char *p, mode_t m) {
+  GATE_FAIL("chmod", -1);
+  logf_(" %s %o", canon(p), m);
+  return done_i(chmod(p, m));
+}
+int __wrap_utimensat(int d, const char *p, const struct timespec t[2], int f) {
+  GATE_FAIL("utimensat", -1);
+  logf_(" %s", p ? p : "-");
+  return done_i(utimensat(d, p, t, f));
+}
+
 /* ---------- allocation ---------- */
 
 static int alloc_gate(void) {
